@@ -258,7 +258,7 @@ def run_check(prop, tier, only=None, jobs=None, native=True, proof=True, verbose
           f"out_of_reach={len(out_of_reach)} bounded_cases={bounded_cases} native_failures={len(nat_fail)} known={len(known_hit)} wall={wall:.1f}s rc={rc}")
     if verbose:
         for r in sorted(results, key=lambda r: r['harness']):
-            print(f"  {r['harness']}: {r['status']} paths={r.get('paths')} t={r.get('time', 0):.1f}s {r.get('reason', '')[:300]}")
+            print(f"  {r['harness']}: {r['status']} paths={r.get('paths')} t={r.get('time', 0):.1f}s {r.get('reason', '')[-700:]}")
             for ob in r.get('obligations', []):
                 if ob['status'] != 'discharged' or verbose:
                     print(f"     {ob['status']:10s} {ob['name']} [{ob.get('backend')}] {ob.get('time', 0):.2f}s {ob.get('model') if ob['status']=='refuted' else ''}")
